@@ -64,6 +64,18 @@ class HeapInterp(Interp):
         if fname.endswith("OccupiedEntry::<'_, Rc<T>, usize>::get_mut"):
             e = self.read_ref(a[0])
             return Ref((('mapval', e.mapref, e.key), []))
+        if re.search(r"OccupiedEntry::<'_, Rc<T>, usize>::(get|into_mut)$", fname):
+            e = self.read_ref(a[0]) if isinstance(a[0], Ref) else a[0]
+            return Ref((('mapval', e.mapref, e.key), []))
+        if re.search(r"OccupiedEntry::<'_, Rc<T>, usize>::key$", fname) or re.search(r"VacantEntry::<'_, Rc<T>, usize>::key$", fname):
+            e = self.read_ref(a[0]) if isinstance(a[0], Ref) else a[0]
+            return Ref((('val', e.key), []))
+        if re.search(r"OccupiedEntry::<'_, Rc<T>, usize>::insert$", fname):
+            e = self.read_ref(a[0]) if isinstance(a[0], Ref) else a[0]
+            m = self.read_ref(e.mapref)
+            old_v = self.sel(m.vals, e.key)
+            self.write_ref(e.mapref, MapObj(K_, m.present, [z3.If(e.key == k, a[1], m.vals[k]) for k in range(K_)]))
+            return old_v
         if fname.endswith("VacantEntry::<'_, Rc<T>, usize>::insert"):
             e = a[0]
             m = self.read_ref(e.mapref)
